@@ -4,8 +4,19 @@
 #include "jls/core.h"
 #include "jls/track.h"
 
-static struct jls_core_s * vg_mk_core(void) {
+/* zeroed: for the chunk-list / track units, which only follow core->raw and the list heads they are handed (the rest of the 1.6 MB record is not read);
+ * a fully arbitrary record is used where its content matters (vg_mk_core_nondet: signal validation) */
+static struct jls_core_s * vg_mk_core_nondet(void) {
     struct jls_core_s * c = malloc(sizeof(*c));
+    __CPROVER_assume(c != NULL);
+    c->raw = malloc(sizeof(struct jls_raw_s));
+    __CPROVER_assume(c->raw != NULL);
+    c->raw->backend.fd = 3;
+    vg_write_forbidden = 0;
+    return c;
+}
+static struct jls_core_s * vg_mk_core(void) {
+    struct jls_core_s * c = calloc(1, sizeof(*c));
     __CPROVER_assume(c != NULL);
     c->raw = malloc(sizeof(struct jls_raw_s));
     __CPROVER_assume(c->raw != NULL);
@@ -25,7 +36,7 @@ void h_core_upditem(void) {
 }
 
 void h_core_sigvalid(void) {
-    struct jls_core_s * c = vg_mk_core();
+    struct jls_core_s * c = vg_mk_core_nondet();
     uint16_t id;
     int32_t rc = jls_core_signal_validate(c, id);
     VG_REACH(sigvalid_returns);
@@ -33,9 +44,24 @@ void h_core_sigvalid(void) {
     if (rc != 0 && id < 256) { VG_REACH(sigvalid_undefined); }
 }
 void h_core_sigvalid_typed(void) {
-    struct jls_core_s * c = vg_mk_core();
+    struct jls_core_s * c = vg_mk_core_nondet();
     uint16_t id; enum jls_signal_type_e t;
     int32_t rc = jls_core_signal_validate_typed(c, id, t);
     VG_REACH(sigvalid_typed_returns);
     if (rc == 0) { VG_REACH(sigvalid_typed_ok); }
+}
+
+void h_track_update(void) {
+    struct jls_core_s * c = vg_mk_core();
+    /* the track record is a separate small object (a byte read at a symbolic offset inside the 1.6 MB core record exhausts memory);
+     * jls_track_update reaches the core only through track->parent->parent */
+    struct jls_core_signal_s * sig = calloc(1, sizeof(*sig));
+    struct jls_core_track_s * track = malloc(sizeof(*track));
+    __CPROVER_assume(sig != NULL && track != NULL);
+    sig->parent = c;
+    track->parent = sig; track->track_type = JLS_TRACK_TYPE_FSR;
+    uint8_t level; int64_t pos;
+    int32_t rc = jls_track_update(track, level, pos);
+    VG_REACH(track_update_returns);
+    if (rc == 0 && vg_ninplace >= 2) { VG_REACH(track_update_rewrote_table); }
 }
